@@ -42,7 +42,8 @@ def shapes(tier):
             out.append(dict(part='history', place=place, source=src))
         # a second row carrying the id of an existing row of the same list, with other content
         out.append(dict(part='history', place=place, source='duplicate_id'))
-    out.append(dict(part='history', place=None, source='omission'))
+    for place in PLACES:
+        out.append(dict(part='history', place=place, source='omission'))
     out.append(dict(part='history', place=None, source='altered'))
     for place in PLACES + [None]:
         out.append(dict(part='new_room', place=place))
@@ -94,9 +95,12 @@ def explore_history(ctx, shape, tier, report):
         extra = None
         if source == 'omission':
             # the candidate leaves an old entry out: the merge must put it back
-            lst = deref(w.field(an, 'AuthorisationNode', 'user_nodes').v).elems
-            lst.pop()
-            deref(w.field(an, 'AuthorisationNode', 'user_edges').v).elems.pop()
+            if place == 'admin':
+                deref(w.field(cand, 'RoomNode', 'admin_nodes').v).elems.pop()
+                deref(w.field(cand, 'RoomNode', 'admin_edges').v).elems.pop()
+            else:
+                deref(w.field(an, 'AuthorisationNode', place + '_nodes').v).elems.pop()
+                deref(w.field(an, 'AuthorisationNode', place + '_edges').v).elems.pop()
         elif source == 'altered':
             # same id, other content for an existing admin row
             node = w.field(rows['admin'][0][1], 'UserNode', 'node').v
@@ -336,6 +340,8 @@ def scenario(ctx, m, kind, info):
         sc['expect'] = dict(result='panic')
         return sc
     sc['expect'] = dict(result='Ok')
+    if sh.get('source') in ('omission', 'altered') and info.get('problem') == 'an existing entry was removed or altered':
+        sc['expect']['entries_preserved'] = False
     sc['what'] = 'prepare_room_node accepts a candidate although: %s (extra row in the %s list, source %s)' % (info.get('problem'), sh.get('place'), sh.get('source'))
     sc['signature'] = 'merge:%s:%s%s' % (info['part'], 'duplicate-id:' if sh.get('source') == 'duplicate_id' else '', info.get('problem'))
     sc['preferred'] = bool(info.get('preferred'))
